@@ -23,6 +23,7 @@ import (
 	"time"
 
 	"github.com/hashicorp/golang-lru/v2/expirable"
+	"go.uber.org/atomic"
 
 	"github.com/lindb/lindb/constants"
 	v1 "github.com/lindb/lindb/index/v1"
@@ -47,6 +48,9 @@ type metricSchemaStore struct {
 	immutable *imap.IntMap[*metric.Schema]
 
 	cache *expirable.LRU[metric.ID, *metric.Schema]
+	// flushSeq counts the completed flushes(modified with lock), what was read from kv store/cache before
+	// a flush completed may be older than what is persisted now.
+	flushSeq atomic.Uint64
 
 	lock sync.RWMutex
 }
@@ -64,6 +68,7 @@ func NewMetricSchemaStore(family kv.Family) MetricSchemaStore {
 
 // GetSchema returns metric schema by metric id, return nil if not exist.
 func (s *metricSchemaStore) GetSchema(id metric.ID) (schema *metric.Schema, err error) {
+	seq := s.flushSeq.Load()
 	schema = s.getSchemaFromMem(id)
 	if schema != nil {
 		return schema, nil
@@ -77,21 +82,40 @@ func (s *metricSchemaStore) GetSchema(id metric.ID) (schema *metric.Schema, err 
 		return nil, err
 	}
 	if schema != nil {
-		s.cache.Add(id, schema)
+		s.lock.RLock()
+		if seq == s.flushSeq.Load() {
+			// a flush which completed after the read purged the cache, an older schema must not come back
+			s.cache.Add(id, schema)
+		}
+		s.lock.RUnlock()
 	}
 	return
 }
 
+// lockForUpdate returns the schema which can be modified, the lock is held if no error.
+func (s *metricSchemaStore) lockForUpdate(id metric.ID) (*metric.Schema, error) {
+	for {
+		seq := s.flushSeq.Load()
+		schema, err := s.GetSchema(id)
+		if err != nil {
+			return nil, err
+		}
+		s.lock.Lock()
+		if seq == s.flushSeq.Load() {
+			return s.schemaForUpdate(id, schema), nil
+		}
+		// a flush completed after the lookup: the schema found may miss what is persisted now, lookup again
+		s.lock.Unlock()
+	}
+}
+
 // genFieldID generates field id if field not exist.
 func (s *metricSchemaStore) genFieldID(id metric.ID, f field.Meta, limits *models.Limits) (fID field.ID, err error) {
-	schema, err := s.GetSchema(id)
+	schema, err := s.lockForUpdate(id)
 	if err != nil {
 		return 0, err
 	}
-	s.lock.Lock()
 	defer s.lock.Unlock()
-
-	schema = s.schemaForUpdate(id, schema)
 
 	fm, ok := schema.Fields.Find(f.Name)
 	if ok {
@@ -112,14 +136,11 @@ func (s *metricSchemaStore) genFieldID(id metric.ID, f field.Meta, limits *model
 func (s *metricSchemaStore) genTagKeyID(id metric.ID, tagKey []byte, limits *models.Limits,
 	createFn func() uint32,
 ) (tagKeyID tag.KeyID, err error) {
-	schema, err := s.GetSchema(id)
+	schema, err := s.lockForUpdate(id)
 	if err != nil {
 		return 0, err
 	}
-	s.lock.Lock()
 	defer s.lock.Unlock()
-
-	schema = s.schemaForUpdate(id, schema)
 
 	tm, ok := schema.TagKeys.Find(strutil.ByteSlice2String(tagKey))
 	if ok {
@@ -267,6 +288,7 @@ func (s *metricSchemaStore) Flush() error {
 		return nil
 	})
 	s.immutable = nil
+	s.flushSeq.Inc()
 	s.cache.Purge()
 	s.lock.Unlock()
 	return nil
